@@ -372,3 +372,116 @@ func replaceIsOneStep(c *core.Ctx, rule string) {
 		c.Check(ok, rule, f.Name()+" propagates only when the replacement succeeded", call.Pos(), "the change is propagated to the clients although Route.ReplacePath reported that the old path was not found")
 	}
 }
+
+// identityRefinesTheDecision: removal finds "the same path" with Compare; the decision process orders paths with Select.
+// Two paths that Select tells apart (one of them wins a step) must never be the same path for Compare — otherwise
+// the withdrawal of the loser removes the first Compare-equal path of the sorted list, i.e. the winner that is still
+// announced.  Necessary: every attribute field the decision (BGPPath.Select and what it calls) reads is also read by the
+// identity test (BGPPath.Compare and what it calls).
+func identityRefinesTheDecision(c *core.Ctx, rule string) {
+	sel, cmp := c.MustFunc("route.(*BGPPath).Select"), c.MustFunc("route.(*BGPPath).Compare")
+	if sel == nil || cmp == nil {
+		return
+	}
+	c.Analysed(sel)
+	c.Analysed(cmp)
+	own := map[*types.Var]bool{}
+	for _, tn := range []string{"BGPPath", "BGPPathA"} {
+		for _, fv := range c.P.Fields("route", tn) {
+			own[fv] = true
+		}
+	}
+	selReads, cmpReads := c.P.ReadsTransitive(sel), c.P.ReadsTransitive(cmp)
+	n := 0
+	for fv := range own {
+		if !selReads[fv] {
+			continue
+		}
+		n++
+		covered := cmpReads[fv]
+		// ASPathLen is the cached length of ASPath (set wherever ASPath is set): comparing the AS path segment by segment covers it
+		if src, derived := map[string]string{"ASPathLen": "ASPath"}[fv.Name()]; derived && !covered {
+			for o := range own {
+				if o.Name() == src && cmpReads[o] {
+					covered = true
+				}
+			}
+		}
+		c.Check(covered, rule, "Compare reads "+fv.Name()+", which the decision reads", cmp.Decl.Pos(),
+			"the decision process separates two paths by "+fv.Name()+" but the identity test (Compare) does not look at it: the two paths are one path for removal, so withdrawing the losing one removes the winning one from the Loc-RIB")
+	}
+	c.Check(n >= 6, rule, "attribute fields read by the decision", sel.Decl.Pos(), fmt.Sprintf("only %d found", n))
+}
+
+// asSetCountsOncePerSegment: RFC4271 9.1.2.2 a) counts an AS_SET as 1, per AS_SET segment.  In ASPath.Length the branch
+// taken for an AS_SET segment adds the constant 1 to the very variable the function returns, once per iteration — a flag
+// ("has a set") or a store of 1 makes two AS_SET segments count as one and such a path ties with a genuinely shorter one.
+func asSetCountsOncePerSegment(c *core.Ctx, rule string) {
+	f := c.MustFunc("protocols/bgp/types.(ASPath).Length")
+	if f == nil {
+		return
+	}
+	c.Analysed(f)
+	asSet := c.P.Object("protocols/bgp/types", "ASSet")
+	// the returned variable: named result, or the identifier returned
+	var ret types.Object
+	if f.Decl.Type.Results != nil && len(f.Decl.Type.Results.List) == 1 && len(f.Decl.Type.Results.List[0].Names) == 1 {
+		ret = f.Pkg.TypesInfo.Defs[f.Decl.Type.Results.List[0].Names[0]]
+	}
+	plainReturn := true
+	ast.Inspect(f.Decl.Body, func(n ast.Node) bool {
+		if rs, ok := n.(*ast.ReturnStmt); ok && len(rs.Results) == 1 {
+			if id, isId := core.Unparen(rs.Results[0]).(*ast.Ident); isId {
+				ret = core.ObjOf(f.Pkg, id)
+			} else {
+				plainReturn = false
+			}
+		}
+		return true
+	})
+	n := 0
+	ast.Inspect(f.Decl.Body, func(nd ast.Node) bool {
+		loop, ok := nd.(*ast.RangeStmt)
+		if !ok {
+			return true
+		}
+		ast.Inspect(loop.Body, func(m ast.Node) bool {
+			var target ast.Expr
+			inc := false
+			switch x := m.(type) {
+			case *ast.IncDecStmt:
+				target, inc = x.X, x.Tok.String() == "++"
+			case *ast.AssignStmt:
+				if len(x.Lhs) != 1 || len(x.Rhs) != 1 {
+					return true
+				}
+				target = x.Lhs[0]
+				if v := core.ConstOf(f.Pkg, x.Rhs[0]); x.Tok.String() == "+=" && v != nil && v.ExactString() == "1" {
+					inc = true
+				}
+			default:
+				return true
+			}
+			// under `seg.Type == ASSet`
+			under := false
+			for _, ft := range core.FactsAt(f, m) {
+				be, isBin := ft.Expr.(*ast.BinaryExpr)
+				if !isBin || !ft.Truth || be.Op.String() != "==" {
+					continue
+				}
+				if core.ObjOf(f.Pkg, be.Y) == asSet || core.ObjOf(f.Pkg, be.X) == asSet {
+					under = true
+				}
+			}
+			if !under {
+				return true
+			}
+			n++
+			c.Check(inc && plainReturn && ret != nil && core.ObjOf(f.Pkg, target) == ret, rule, f.Name()+" an AS_SET segment adds 1 to the returned length", m.Pos(),
+				"the AS_SET branch does not add 1 per segment to the returned value (it sets a flag or stores a constant): a path with several AS_SETs is counted too short and wins or ties the AS_PATH length step against a shorter path")
+			return true
+		})
+		return false
+	})
+	c.Check(n >= 1, rule, f.Name()+" AS_SET branch", f.Decl.Pos(), "no statement under `Type == ASSet` found in the loop")
+}
